@@ -31,5 +31,11 @@ CHECKS["C15"] = (
     "Theorems for all sequences of (length >= 1, return), all window sizes, thresholds and reset weights: released + waiting = collected at every prefix; a release is exactly the window's steps and resets all counters; the checkpoint is replaced only on a complete window with every return >= the best minimum; cut short iff the window minimum is below it; the window size switches at most once, exactly at the threshold crossing. The extracted model is compared with assess_performance_and_checkpoint on every run.",
     "Trusts: Coq kernel, extraction, OCaml glue, Python harness. Returns are rationals in the model (dyadic in the cases). train_td7's use of the function (epoch += training_steps) is mirrored by td7_run and observed in the C11 train runs. No axioms.",
 )
+CHECKS["C14"] = (
+    "DESIGN.md §2 C14",
+    "Coq proof over R (frame + delta of every tabular update on well-shaped tables, arg-max is a first maximiser, Monte-Carlo running-mean invariant over all episode sequences, Dyna-Q empirical-model invariant over all transition histories) + exact rational correspondence with the jitted updates and recorded training runs",
+    "Theorems for all tables, states, actions, rewards, gamma, learning rates and termination flags: exactly entry (s,a) changes, by lr*(r + gamma(1-terminated)V_next - Q(s,a)) with V_next the greedy value (Q-learning), the supplied action's value (SARSA) or the other table's value of the updated table's greedy successor action (double Q); Monte-Carlo entries are the arithmetic means of their observed discounted returns; the Dyna-Q model row equals the empirical successor frequencies. The extracted model (rational instance) must equal the float32 implementation exactly on dyadic inputs.",
+    "Trusts: Coq kernel + the standard library's real-number axioms (Print Assumptions: ClassicalDedekindReals.sig_forall_dec, sig_not_dec, functional_extensionality_dep, Classical_Prop.classic); extraction, OCaml glue, harness; JAX indexed updates as executed. Dyna-Q's mean-reward entry is tied by correspondence only.",
+)
 _PENDING = "check not built yet in this revision (planned: Coq model + correspondence, see DESIGN.md §2)"
 NOT_APPLICABLE = {f"C{i:02d}": _PENDING for i in range(1, 21) if f"C{i:02d}" not in CHECKS}
